@@ -282,7 +282,8 @@ func verifC06_SignVerify() {
 	sent := signed
 	switch changedPart {
 	case 1:
-		sent.method = []string{"GET", "POST", "PUT"}[verifChoose("sent.method", 3)]
+		// (a method token is case-sensitive: "post" is another method than "POST")
+		sent.method = []string{"GET", "POST", "PUT", "post"}[verifChoose("sent.method", 4)]
 	case 2:
 		sent.path = "/" + verifString("sent.path", n)
 		verifAssume(vAlnum(sent.path[1:]))
